@@ -230,6 +230,11 @@ type Sink struct {
 	gates   []*Gate
 	Counts  map[string]int
 	Verbose bool
+	// request objects seen so far: a (client, stream) pair is reused by later requests while an earlier request
+	// on it may still be active inside the proxy, so hook events identify a request by its ordinal among the
+	// requests created on that pair
+	reqOrd  map[interface{}]int // keyed by the request object itself: keeps it alive, so its address is never reused
+	reqSeen map[string]int
 }
 
 type Gate struct {
@@ -244,7 +249,8 @@ type Gate struct {
 }
 
 func NewSink(t *tracer.Tracer) *Sink {
-	return &Sink{T: t, pendMap: map[interface{}]*proxycore.ClientConn{}, repeat: map[string]int{}, Spins: map[string]int{}, Counts: map[string]int{}}
+	return &Sink{T: t, pendMap: map[interface{}]*proxycore.ClientConn{}, repeat: map[string]int{}, Spins: map[string]int{}, Counts: map[string]int{},
+		reqOrd: map[interface{}]int{}, reqSeen: map[string]int{}}
 }
 
 // AddGate parks every goroutine that reaches `point` with pred(args) true until Release.
@@ -296,6 +302,24 @@ func (s *Sink) reqKey(r interface{}) (caddr string, stream int, ok bool) {
 	return ca, int(st), ok
 }
 
+// reqOrdinal returns the 1-based ordinal of request object r among the requests created on its (client, stream).
+func (s *Sink) reqOrdinal(r interface{}) int {
+	r = unwrap(r)
+	ca, st, ok := proxy.VerifRequestInfo(r)
+	if !ok {
+		return 0
+	}
+	s.mu.Lock()
+	defer s.mu.Unlock()
+	if o, ok := s.reqOrd[r]; ok {
+		return o
+	}
+	k := fmt.Sprintf("%s|%d", ca, st)
+	s.reqSeen[k]++
+	s.reqOrd[r] = s.reqSeen[k]
+	return s.reqSeen[k]
+}
+
 // limited rate-limits identical send-failure events of one request object: a request that
 // spins in executeInternal(false) would otherwise flood the log. The counters of a request are
 // reset whenever it starts an iteration that advances its query plan.
@@ -337,13 +361,13 @@ func (s *Sink) Handle(point string, args ...interface{}) {
 		s.mu.Unlock()
 		if ca, st, ok := s.reqKey(args[1]); ok && c != nil {
 			host, local := hostOfConn(c)
-			s.T.Emit("H.onclose", "caddr", ca, "stream", st, "host", host, "local", local)
+			s.T.Emit("H.onclose", "caddr", ca, "stream", st, "ord", s.reqOrdinal(args[1]), "host", host, "local", local)
 		}
 	case "send.noconn":
 		if ca, st, ok := s.reqKey(args[2]); ok {
 			host := args[1].(*proxycore.Host).Key()
 			if n, emit := s.limited(unwrap(args[2]), "noconn|"+host); emit {
-				s.T.Emit("H.sendfail", "caddr", ca, "stream", st, "host", host, "why", "noconn", "n", n)
+				s.T.Emit("H.sendfail", "caddr", ca, "stream", st, "ord", s.reqOrdinal(args[2]), "host", host, "why", "noconn", "n", n)
 			}
 		}
 	case "pending.refuse":
@@ -354,7 +378,7 @@ func (s *Sink) Handle(point string, args ...interface{}) {
 				why = "streams"
 			}
 			if n, emit := s.limited(unwrap(args[1]), why+"|"+host); emit {
-				s.T.Emit("H.sendfail", "caddr", ca, "stream", st, "host", host, "local", local, "why", why, "n", n)
+				s.T.Emit("H.sendfail", "caddr", ca, "stream", st, "ord", s.reqOrdinal(args[1]), "host", host, "local", local, "why", why, "n", n)
 			}
 		}
 	case "send.wrote":
@@ -362,7 +386,7 @@ func (s *Sink) Handle(point string, args ...interface{}) {
 			if ca, st, ok := s.reqKey(args[2]); ok {
 				host, local := hostOfConn(args[0].(*proxycore.ClientConn))
 				if n, emit := s.limited(unwrap(args[2]), "write|"+host); emit {
-					s.T.Emit("H.sendfail", "caddr", ca, "stream", st, "host", host, "local", local, "why", "write", "n", n)
+					s.T.Emit("H.sendfail", "caddr", ca, "stream", st, "ord", s.reqOrdinal(args[2]), "host", host, "local", local, "why", "write", "n", n)
 				}
 			}
 		}
@@ -371,11 +395,12 @@ func (s *Sink) Handle(point string, args ...interface{}) {
 			if _, wrapped := proxycore.VerifUnwrapRequest(req); wrapped {
 				if ca, st, ok := s.reqKey(req); ok {
 					_, local := hostOfConn(args[0].(*proxycore.ClientConn))
-					s.T.Emit("H.prepstore", "caddr", ca, "stream", st, "local", local, "bstream", int(args[1].(int16)))
+					s.T.Emit("H.prepstore", "caddr", ca, "stream", st, "ord", s.reqOrdinal(req), "local", local, "bstream", int(args[1].(int16)))
 				}
 			}
 		}
 	case "exec.iter":
+		s.reqOrdinal(args[0])
 		if next, _ := args[1].(bool); next {
 			s.resetLimits(args[0])
 		}
